@@ -573,6 +573,24 @@ def run(shard, ctx):
             fields = [(unit_k[0], off, n_items, unit_k[1])]
             used = set(range(8 * off, 8 * (off + n_items * unit_k[1])))
             ctx.count("whole_buffer_blob_layouts")
+        elif i % 97 == 11:
+            # a structure described field by field with hundreds of fields (IDENTIFY data word by word, a bitmap bit by bit): more
+            # fields than fit a byte-sized index
+            nf = rng.choice([200, 255, 256, 257, 258, 300, 513, 700])
+            kind = rng.choice(["words", "bytes", "bits"])
+            if kind == "words":
+                size = 2 * nf + rng.choice([0, 2])
+                fields = [("m", 2 * k, 7, 16) for k in range(nf)]
+            elif kind == "bytes":
+                size = nf + rng.choice([0, 1])
+                fields = [("m", k, 7, 8) for k in range(nf)]
+            else:
+                size = (nf + 7) // 8
+                fields = [("m", k // 8, 7 - k % 8, 1) for k in range(nf)]
+            used = set()
+            for f in fields:
+                used |= set(range(8 * f[1] + 7 - f[2], 8 * f[1] + 7 - f[2] + f[3]))
+            ctx.count("layouts_with_hundreds_of_fields")
         elif i % 6 == 5:
             size = rng.choice([200, 255, 256, 257, 300, 511, 512, 513, 520, 572, 1024, 1030, 2052, 4100])
             fields, used = gen_layout_big(rng, size)
